@@ -368,9 +368,22 @@ func (u UniqueIdentifier) pack(buf []byte, pos int) (int, error) {
 	return pos, nil
 }
 
+// maxUniqueIDLen bounds the identifier a server accepts: it is echoed into a
+// response of at most MaxPacketLen bytes next to the cookies and the authenticator.
+const maxUniqueIDLen = MaxPacketLen / 4
+
+var errLongUniqueID = errors.New("UniqueIdentifier.ID too long")
+
 func (u *UniqueIdentifier) unpack(buf []byte, pos int) error {
 	if u.extHdr.Type != extUniqueIdentifier {
 		return errUnexpectedExtHdrType
+	}
+	if u.extHdr.Length < 4+32 {
+		// pack refuses such an identifier (and EncodePacket panics on that)
+		return errShortUniqueID
+	}
+	if u.extHdr.Length-4 > maxUniqueIDLen {
+		return errLongUniqueID
 	}
 	valueLen := u.extHdr.Length - 4
 	id := make([]byte, valueLen)
